@@ -100,6 +100,14 @@ func (t *IterableType) IsAssignable(o px.Type, g px.Guard) bool {
 		et = OneCharStringType
 	case *IterableType:
 		et = o.typ
+	case *StructType:
+		// like a Hash: every entry [key, value] that the struct admits must be accepted
+		for _, e := range o.elements {
+			if !GuardedIsAssignable(t.typ, NewTupleType([]px.Type{e.ActualKeyType(), e.value}, nil), g) {
+				return false
+			}
+		}
+		return true
 	case *TupleType:
 		if o.givenOrActualSize.max == 0 {
 			return true
